@@ -134,7 +134,7 @@ def run(chk):
                         chk.finding("optimize|attribute-mutated|%s" % callee.split("::")[-1], rule="R-OPT-ARM", where="%s:%s" % (ob.file, t["line"]), fn="ColorOptimizer::optimize",
                                     what="`%s` modifies the rewritten cell's attribute %s" % (callee.split("::")[-1], ("outside the %s arm" % want) if want else
                                                                                             "(only set_foreground in the Whitespace arm and set_background in the Block arm may)"))
-        chk.floor("R-OPT-ARM", "writes to the rewritten cell's attribute / character", nw, 5)
+        chk.floor("R-OPT-ARM", "writes to the rewritten cell's attribute / character", nw, 3)
         # the setters write exactly one field
         for nm, fld in (("set_foreground", "foreground_color"), ("set_background", "background_color")):
             sid = "text_attribute::TextAttribute::" + nm
